@@ -335,3 +335,28 @@ Definition final_headers (a : bargs) : hdrs :=
 Definition intended_body (a : bargs) : bytes := if truthy (a_body a) then bytes_or_empty (a_body a) else [].
 
 Definition norm_header (kv : bytes * bytes) : bytes * bytes := (fst kv, strip_ows (snd kv)).
+
+(* ---------------------------------------------------------------- domains of the convenience builders *)
+(* the version string in PROXY_AGENT_HEADER_VALUE is a legal field value *)
+Definition wf_agent (agent : bytes) : bool := forallb is_field_char agent.
+
+(* caller-supplied extra headers of okResponse: distinct legal names, legal values, no framing
+   headers (okResponse / build_http_response add those themselves) *)
+Definition wf_user_headers (headers : option hdrs) : bool :=
+  let hs := hdrs_or_empty headers in
+  nodup_keys hs &&
+  forallb (fun kv => is_token (fst kv) && forallb is_field_char (snd kv)) hs &&
+  negb (has_te hs) &&
+  forallb (fun kv => negb (bytes_eqb (lower (fst kv)) L_CONTENT_LENGTH)) hs.
+
+(* the HttpProtocolException classes whose response() builds a well-formed packet *)
+Definition wf_proto_exn (connect : bool) (agent : bytes) (e : proto_exn) : bool :=
+  match e with
+  | PlainProtocol _ => true
+  | RequestRejected (Some s) reason headers body =>
+      if (s =? 0)%Z then true else wf_args connect (request_rejected_args s reason headers body)
+  | RequestRejected None _ _ _ => true
+  | AuthFailed | ConnFailed => wf_agent agent
+  | CustomProtocol (Some r) => wf_response connect r     (* a user class answers for itself *)
+  | CustomProtocol None => true
+  end.
